@@ -8,7 +8,7 @@ cd "$(dirname "$0")"
 VERIF=$(pwd)
 export GOFLAGS=-mod=mod GOPROXY=off GOSUMDB=off GOTOOLCHAIN=local GOCACHE=$VERIF/.work/gocache
 mkdir -p .work/bin evidence replays
-( cd coq && coq_makefile -f _CoqProject -o Makefile >/dev/null && timeout 3000 make -j16 2>&1 | tail -5 )
+python3 -c "import sys; sys.path.insert(0, \"$VERIF\"); from lib import vlib; rc, so, se = vlib.coq_make(keep_going=True); print((so+se)[-1500:]); sys.exit(0)"
 for d in oracle/*/; do
   if [ -f "$d/Extract.v" ]; then
     ( cd "$d" && cp ../common/proto.ml proto.ml \
